@@ -172,11 +172,14 @@ def run(report, p):
         ok = it_ok and neg and spec_ok and rebinds and norm(comp.elt) == norm(gen.target)
         if ok:
             var = st.targets[0].id
-            # every later read of the path collection reads the filtered one
+            # every later read of the (unfiltered) path collection reads the filtered one
             for n in walk_no_nested(tfm.node):
                 if isinstance(n, ast.Name) and isinstance(n.ctx, ast.Load) and n.id == tfm.params[0] and n is not gen.iter:
                     o = pr.origins(n, tfm)
                     ok = ok and all(x[0] == "op" and x[1] == "comp" for x in o)
+            # and the filtered collection is what is counted / reported
+            used = [n for n in walk_no_nested(tfm.node) if isinstance(n, ast.Name) and isinstance(n.ctx, ast.Load) and n.id == var]
+            ok = ok and len(used) >= 2
     r3.instance(tfm, tfm.node, "filter body")
     r3.check(ok, tfm, tfm.node, "the missing-file filter does not pass every expected path through `not <command spec>.match_file(...)` before counting/reporting", construct="filter comprehension")
 
